@@ -54,7 +54,13 @@ def strategy(tier):
         st.tuples(st.just('pack'), st.integers(0, 12)),
         st.tuples(st.just('reopen')),
     ).map(list)
-    db = st.fixed_dictionaries({'mode': st.just('db'), 'ops': st.lists(dbop, min_size=2, max_size=n + 4)})
+    free = st.lists(dbop, min_size=2, max_size=n + 4)
+    # "before and after packs": a state brought back by an undo of an undo (back-pointer chains), then a pack
+    # around it, and everything is read again from the storage
+    nn = st.sampled_from(['n1', 'n2', 'n3'])
+    chain = st.tuples(st.lists(dbop, max_size=3), nn, nn, st.integers(1, 3), st.integers(0, 12), st.lists(dbop, max_size=4)).map(
+        lambda t: t[0] + [['create', t[1]], ['undo', [0]], ['create', t[2]]] + [['undo', [0]]] * t[3] + [['pack', t[4]]] + t[5])
+    db = st.fixed_dictionaries({'mode': st.just('db'), 'ops': st.one_of(free, free.map(list), chain)})
     return st.one_of(raw, db)
 
 
@@ -445,6 +451,8 @@ def execute_db(case, out):
                             tx['packed'] = True
                     env['packed_since_boundary'] = True
                     out.label('pack')
+                    # what is read next comes from the packed storage, not from the caches
+                    env['c1'].cacheMinimize()
                 except Exception as e:
                     if type(e).__name__ not in ('FileStorageError', 'PackError'):
                         raise
